@@ -1,10 +1,10 @@
 (* C03 -- the client receives exactly the bytes the application wrote, once and in order.
-   Only property theorems, each closed by `exact <lemma>`; proofs are in Proofs.v .. Proofs5.v.
+   Only property theorems, each closed by `exact <lemma>`; proofs are in Proofs.v .. Proofs10.v, ProofsGzip.v, ProofsHdr.v.
    Vocabulary (Defs.v): conn = connection object (format state k_fmt, pending_output_, wire = list of pieces the
    socket accepted, accept schedule k_sched, ghost trace k_trace of every (gather buffer, eof) handed to
    format_output); sent c = bytes on the wire ++ pending_output_; stream f t = the ideal concatenation of
    format_output over a trace; tr c = bytes the device asked the connection to write. *)
-From CppcmsV Require Import Base.Tac Base.CSem C03.Defs C03.Proofs C03.Proofs2 C03.Proofs3 C03.Proofs4 C03.Proofs5 C03.Proofs6 C03.Proofs7 C03.Proofs8 C03.Link gen.Gen_C03 gen.Gen_C03_fcgi gen.Gen_C03_sock.
+From CppcmsV Require Import Base.Tac Base.CSem C03.Defs C03.Proofs C03.Proofs2 C03.Proofs3 C03.Proofs4 C03.Proofs5 C03.Proofs6 C03.Proofs7 C03.Proofs8 C03.Proofs9 C03.Proofs10 C03.Proofs11 C03.Proofs12 C03.Proofs13 C03.GzipDefs C03.ProofsGzip C03.ProofsHdr C03.Proofs14 C03.Link gen.Gen_C03 gen.Gen_C03_fcgi gen.Gen_C03_sock.
 Local Open Scope N_scope.
 
 (* ------------------------------------------------------------------------------------------------ 1. pending_conservation
@@ -67,13 +67,13 @@ Example pending_nonvacuous :
 Proof. vm_compute. repeat split. Qed.
 
 (* ------------------------------------------------------------------------------------------------ 2. device_conservation
-   basic_device / output_device / async_io_buf (src/http_response.cpp): open with any capacity (0 included), any
-   sequence of xsputn / sputc / sync / setbuf n / full_buffering b / flush in which no setbuf shrinks a fully
-   buffered device below its content (dsafe), then close: the connection is handed exactly the bytes written, in
-   order; nothing stays buffered; eof is signalled exactly once, by the last write; a second close does nothing. *)
+   basic_device / output_device / async_io_buf (src/http_response.cpp): open with any capacity (0 included), ANY
+   sequence of xsputn / sputc / sync / setbuf n / full_buffering b / flush (no side condition: since /repo commit
+   00eb9d4 a setbuf below the buffered amount in full buffering mode is harmless), then close: the connection is
+   handed exactly the bytes written, in order; nothing stays buffered; eof is signalled exactly once, by the last
+   write; a second close does nothing. *)
 Theorem device_conservation : forall ops async cap c,
   let d0 := dev_open (new_dev async) cap in
-  dsafe d0 c ops ->
   let (d1, c1) := drun d0 c ops in
   let (d2, c2) := dev_close d1 c1 in
   tr c2 = tr c ++ concat (map dbytes ops) /\ d_buf d2 = [] /\
@@ -82,22 +82,33 @@ Theorem device_conservation : forall ops async cap c,
 Proof. exact device_conservation_lemma. Qed.
 Print Assumptions device_conservation.
 
-(* the excluded case is a real defect (finding async-full-buffering-setbuf-shrink): the faithful model of
-   async_io_buf::setbuf + vector::resize zeroes buffered bytes.  Full model, SCGI, no headers:
-   write 1 2 3 4; setbuf(1); write 5  puts  CR LF 1 0 0 0 5  on the wire *)
-Theorem device_conservation_shrinking_setbuf_refuted :
+(* regression of the repaired defect (was finding async-full-buffering-setbuf-shrink, /repo commit 00eb9d4): before
+   the repair the faithful model of async_io_buf::setbuf + vector::resize put  CR LF 1 0 0 0 5  on the wire for
+   write 1 2 3 4; setbuf(1); write 5  (SCGI, no headers).  Now every byte arrives; the second witness uses setbuf(0)
+   (formerly a null put area), put(), an asynchronous flush under the schedule [2;0;1] and a second setbuf(0). *)
+Theorem device_conservation_shrinking_setbuf_regression :
   let c := new_conn Scgi true false 1 [] [] [] [] in
-  concat (k_wire (fst (run_request true (mkHeaders [] []) 1024 [] c shrink_ops))) = CRLF ++ [1;0;0;0;5].
+  concat (k_wire (fst (run_request true (mkHeaders [] []) 1024 [] c shrink_ops))) = CRLF ++ [1;2;3;4;5].
 Proof. exact shrink_witness. Qed.
-Print Assumptions device_conservation_shrinking_setbuf_refuted.
+Print Assumptions device_conservation_shrinking_setbuf_regression.
+Example shrinking_setbuf_zero_regression :
+  let c := new_conn Scgi true false 1 [] [] [2;0;1] [] in
+  concat (k_wire (fst (run_request true (mkHeaders [] []) 1024 [] c shrink0_ops))) = CRLF ++ [1;2;3;4;5;6].
+Proof. exact shrink0_witness. Qed.
 
+(* non-vacuity: a synchronous device with flushing setbufs, and a fully buffered asynchronous device on which
+   setbuf(2) and setbuf(0) are called with 3 and 4 bytes buffered (the formerly excluded class): nothing is written
+   before close, which hands over all seven bytes in one buffer *)
 Example device_nonvacuous :
   let c := new_conn Scgi true false 1 [] [] [] [] in
   let ops := [DSputn [1;2;3]; DSetbuf 2; DSputc 4; DSync; DSputn [5;6;7]; DSetbuf 0; DSputn [8]] in
-  dsafe (dev_open (new_dev false) 4) c ops /\
   map fst (k_trace (snd (let (d1, c1) := drun (dev_open (new_dev false) 4) c ops in dev_close d1 c1))) =
-    [[[1;2;3]]; [[4]]; [[5;6;7]]; [[8]]; []].
-Proof. vm_compute. repeat split; discriminate. Qed.
+    [[[1;2;3]]; [[4]]; [[5;6;7]]; [[8]]; []] /\
+  (let aops := [DSputn [1;2;3]; DSetbuf 2; DSputc 4; DSync; DSetbuf 0; DSputn [5;6;7]] in
+   let (d1, c1) := drun (dev_open (new_dev true) 4) c aops in
+   d_buf d1 = [1;2;3;4;5;6;7] /\ d_cap d1 = 0 /\ d_vsize d1 = 8 /\
+   map fst (k_trace (snd (dev_close d1 c1))) = [[[1;2;3;4;5;6;7]]]).
+Proof. vm_compute. repeat split. Qed.
 
 (* ------------------------------------------------------------------------------------------------ 3. framing
    unchunk_chunk: for every sequence of gather buffers written without eof followed by the completing write,
@@ -180,6 +191,64 @@ Example headers_nonvacuous :
                unchunk 4 body = Some ([1;2;3], []).
 Proof. split; [vm_compute; reflexivity|]. eexists. split; vm_compute; reflexivity. Qed.
 
+(* ------------------------------------------------------------------------------------------------ 4b. the header block carries every header and cookie
+   private/response_headers.h: std::map<string,string,icompare> as modelled by hmap_set / hmap_get.  hsorted = keys strictly
+   increasing under the case-insensitive order (so unique up to case); it holds for the empty map and is preserved. *)
+Theorem header_map_sorted_unique : forall m k v k2, hsorted m ->
+  hsorted (hmap_set m k v) /\ (length (filter (same_name k2) (hmap_set m k v)) <= 1)%nat.
+Proof. exact header_map_sorted_unique_lemma. Qed.
+Print Assumptions header_map_sorted_unique.
+(* the last value set for a name wins (an empty value erases), names that differ (ignoring case) are untouched *)
+Theorem header_last_value_wins : forall m k v, hsorted m ->
+  hmap_get (hmap_set m k v) k = v /\ forall k2, ci_compare k2 k <> Eq -> hmap_get (hmap_set m k v) k2 = hmap_get m k2.
+Proof. exact header_last_value_wins_lemma. Qed.
+Print Assumptions header_last_value_wins.
+(* every header held by the map is one line  Name: value CRLF  of the block; every cookie line is in the block;
+   in the HTTP block every header but Status (which becomes the status line) *)
+Theorem header_block_carries_every_header : forall h k, hmap_get (h_map h) k <> [] ->
+  exists k' pre post, ci_compare k k' = Eq /\
+    format_cgi_headers h = pre ++ (k' ++ COLON_SP ++ hmap_get (h_map h) k ++ CRLF) ++ post.
+Proof. exact cgi_block_carries. Qed.
+Print Assumptions header_block_carries_every_header.
+Theorem header_block_carries_every_cookie : forall h l, In l (h_added h) ->
+  exists pre post, format_cgi_headers h = pre ++ (l ++ CRLF) ++ post.
+Proof. exact cgi_block_cookie. Qed.
+Print Assumptions header_block_carries_every_cookie.
+Theorem http_header_block_carries_every_header : forall h version k, hmap_get (h_map h) k <> [] -> is_status k = false ->
+  exists k' pre post, ci_compare k k' = Eq /\
+    format_http_headers h version = pre ++ (k' ++ COLON_SP ++ hmap_get (h_map h) k ++ CRLF) ++ post.
+Proof. exact http_block_carries. Qed.
+Print Assumptions http_header_block_carries_every_header.
+(* along a script: set_header(k, v) before the first output, not overwritten before it (other header names, cookies,
+   setbuf, ... in between are fine): the block fixed by out() -- which scgi/fastcgi_response_exact put on the wire once --
+   contains the line  k': v  with k' = k up to case *)
+Theorem header_set_before_output_is_sent : forall pre post h k v rest,
+  hsorted (h_map h) -> Forall (fun o => is_output o = false) pre -> Forall (keeps k) post ->
+  (match rest with [] => True | o :: _ => is_output o = true end) -> v <> [] ->
+  exists k' p q, ci_compare k k' = Eq /\
+    format_cgi_headers (hdrs_at_out h (pre ++ OHeader k v :: post ++ rest)) = p ++ (k' ++ COLON_SP ++ v ++ CRLF) ++ q.
+Proof. exact header_set_is_in_block. Qed.
+Print Assumptions header_set_before_output_is_sent.
+
+(* set_cookie(k, v) before the first output (whatever else precedes or follows it): the block fixed by out() contains the
+   line  Set-Cookie:k=v; Version=1 *)
+Theorem cookie_set_before_output_is_sent : forall pre h k v rest, Forall (fun o => is_output o = false) pre ->
+  exists p q, format_cgi_headers (hdrs_at_out h (pre ++ OCookie k v :: rest)) = p ++ (cookie_line k v ++ CRLF) ++ q.
+Proof. exact cookie_set_is_in_block. Qed.
+Print Assumptions cookie_set_before_output_is_sent.
+
+(* non-vacuity: x-test set three times (two before the first write, with different case), a cookie in between, the
+   third one after the first output is ignored; first spelling kept, second value sent, one entry only *)
+Example header_map_nonvacuous :
+  let base := mkHeaders (hmap_set (hmap_set [] [67;45;84] [116]) [88;45;80] [99]) [] in     (* C-T: t, X-P: c *)
+  let ops := [OHeader [120;45;116] [49]; OCookie [97] [98]; OHeader [88;45;84] [50]; OWrite [1]; OHeader [88;45;116] [51]] in
+  hsorted (h_map base) /\
+  h_map (hdrs_at_out base ops) = [([67;45;84],[116]); ([88;45;80],[99]); ([120;45;116],[50])] /\
+  h_added (hdrs_at_out base ops) = [cookie_line [97] [98]] /\
+  hmap_get (h_map (hdrs_at_out base ops)) [88;45;84] = [50] /\
+  length (filter (same_name [88;45;84]) (h_map (hdrs_at_out base ops))) = 1%nat.
+Proof. split; [repeat constructor|]. vm_compute. repeat split. Qed.
+
 (* ------------------------------------------------------------------------------------------------ 5. cache_copy_exact
    copy_buf: the copy handed to the page cache (copied_data) is byte-identical to what the application wrote
    through it, for every write size (doubling points of the internal buffer included) *)
@@ -193,22 +262,167 @@ Print Assumptions cache_copy_exact_put.
 Theorem cache_copy_exact_flush : forall y d c, c_all (fst (fst (cpy_sync y d c))) = c_all y.
 Proof. exact cpy_sync_all. Qed.
 Print Assumptions cache_copy_exact_flush.
-(* gzip (theorem 6 of the plan) and raw io modes are not modelled: oracle only. *)
+(* raw io modes are not modelled: oracle only.  gzip: section 5b below. *)
 Example cache_copy_nonvacuous :
   let c := new_conn Scgi true false 1 [] [] [] [] in
   let '(cf, copy) := run_request false (mkHeaders [] []) 4 [] c [OCopy; OWrite (repeat 7 130); OPut [1;2]; OFlush; OWrite [3]] in
   copy = repeat 7 130 ++ [1;2;3] /\ concat (k_wire cf) = CRLF ++ repeat 7 130 ++ [1;2;3].
 Proof. vm_compute. split; reflexivity. Qed.
 
+(* ------------------------------------------------------------------------------------------------ 5b. gzip
+   details::gzip_buf (src/http_response.cpp).  zlib is external: the z_stream state ZS, one complete deflate loop of
+   gzip_buf::do_write (zdef: input, flush flag -> output pieces handed to out_->sputn) and the decompressor are
+   universally quantified; the only assumption is zlib's contract (premise 3): deflate calls with Z_NO_FLUSH /
+   Z_SYNC_FLUSH ended by ONE Z_FINISH call produce a stream that inflates to the concatenated input.  The downstream
+   streambuf chain is abstract too (what it has received so far; sputn appends, pubsync keeps -- premises 1, 2).
+   For every buffer size and every sequence of write / put / flush: close() issues the only Z_FINISH, everything
+   written went through zlib in order (so the bytes received downstream inflate to the bytes written), and a second
+   close() does nothing (finalised exactly once). *)
+Theorem gzip_finalised_once_and_exact :
+  forall (ZS : Type) (zdef : ZS -> bytes -> N -> ZS * list bytes) (S : Type) (sink_put : S -> bytes -> S) (sink_sync : S -> S)
+         (received : S -> bytes) (Inv : S -> Prop),
+  (forall s b, Inv s -> Inv (sink_put s b) /\ received (sink_put s b) = received s ++ b) ->
+  (forall s, Inv s -> Inv (sink_sync s) /\ received (sink_sync s) = received s) ->
+  forall (z0 : ZS) (s0 : S) (inflate : bytes -> option bytes),
+  (forall calls last, Forall flag_ok calls ->
+     inflate (concat (snd (zrun ZS zdef z0 (calls ++ [(last, Z_FINISH)])))) = Some (concat (map fst calls) ++ last)) ->
+  forall bufsize ops, Inv s0 ->
+  let r := grun ZS zdef S sink_put sink_sync (gz_open ZS z0 bufsize) s0 ops in
+  let r' := gz_close ZS zdef S sink_put sink_sync (fst r) (snd r) in
+  Inv (snd r') /\
+  (exists comp, received (snd r') = received s0 ++ comp /\ inflate comp = Some (concat (map gbytes ops))) /\
+  gz_close ZS zdef S sink_put sink_sync (fst r') (snd r') = r'.
+Proof. exact gzip_exact_lemma. Qed.
+Print Assumptions gzip_finalised_once_and_exact.
+
+(* the chain of response::out() with gzip and without copy_buf: zbuf -> output device -> connection; finalize closes
+   zbuf, then the device.  What the device asks the connection to write (tr) is a stream that inflates to the bytes the
+   application wrote; nothing stays buffered; the last write carries eof. *)
+Theorem gzip_over_device_exact :
+  forall (ZS : Type) (zdef : ZS -> bytes -> N -> ZS * list bytes) (z0 : ZS) (inflate : bytes -> option bytes),
+  (forall calls last, Forall flag_ok calls ->
+     inflate (concat (snd (zrun ZS zdef z0 (calls ++ [(last, Z_FINISH)])))) = Some (concat (map fst calls) ++ last)) ->
+  forall async cap c bufsize ops,
+  let d0 := dev_open (new_dev async) cap in
+  let r := grun ZS zdef (dev * conn) dsink_put dsink_sync (gz_open ZS z0 bufsize) (d0, c) ops in
+  let r' := gz_close ZS zdef (dev * conn) dsink_put dsink_sync (fst r) (snd r) in
+  let fin := dev_close (fst (snd r')) (snd (snd r')) in
+  exists comp, tr (snd fin) = tr c ++ comp /\ inflate comp = Some (concat (map gbytes ops)) /\
+               d_buf (fst fin) = [] /\ (exists pre, eofs (snd fin) = pre ++ [true]).
+Proof. exact gzip_device_exact_lemma. Qed.
+Print Assumptions gzip_over_device_exact.
+
+(* response::out() with gzip AND copy_to_cache: zbuf -> copy_buf -> device, closed in this order by finalize: the page
+   copied to the cache is byte-identical to the (compressed) body handed to the connection, and inflates to what the
+   application wrote (plan theorem 5, gzip case) *)
+Theorem gzip_cache_copy_exact :
+  forall (ZS : Type) (zdef : ZS -> bytes -> N -> ZS * list bytes) (z0 : ZS) (inflate : bytes -> option bytes),
+  (forall calls last, Forall flag_ok calls ->
+     inflate (concat (snd (zrun ZS zdef z0 (calls ++ [(last, Z_FINISH)])))) = Some (concat (map fst calls) ++ last)) ->
+  forall async cap c bufsize ops,
+  let d0 := dev_open (new_dev async) cap in
+  let r := grun ZS zdef _ csink_put csink_sync (gz_open ZS z0 bufsize) (mkCpy [] [] 0 0, d0, c) ops in
+  let r' := gz_close ZS zdef _ csink_put csink_sync (fst r) (snd r) in
+  let r2 := cpy_overflow (fst (fst (snd r'))) (snd (fst (snd r'))) (snd (snd r')) None in
+  let fin := dev_close (snd (fst r2)) (snd r2) in
+  exists comp, tr (snd fin) = tr c ++ comp /\ c_all (fst (fst r2)) = comp /\ inflate comp = Some (concat (map gbytes ops)).
+Proof. exact gzip_cache_exact_lemma. Qed.
+Print Assumptions gzip_cache_copy_exact.
+
+(* down to the socket (chain zbuf -> device -> connection, any protocol).  c0 = the connection as out() leaves it (header
+   block fixed, nothing written).  Unless an error was signalled: the committed stream (wire ++ pending; pending is empty
+   for the synchronous device, the only one gzip is used with) is the ideal stream of the trace -- to which the framing
+   theorems of section 3/4 apply -- and the data of the trace inflates to what the application wrote *)
+Theorem gzip_committed_stream_exact :
+  forall (ZS : Type) (zdef : ZS -> bytes -> N -> ZS * list bytes) (z0 : ZS) (inflate : bytes -> option bytes),
+  (forall calls last, Forall flag_ok calls ->
+     inflate (concat (snd (zrun ZS zdef z0 (calls ++ [(last, Z_FINISH)])))) = Some (concat (map fst calls) ++ last)) ->
+  forall async cap c0 bufsize ops,
+  k_err c0 = false -> k_trace c0 = [] -> sent c0 = [] ->
+  let d0 := dev_open (new_dev async) cap in
+  let r := grun ZS zdef _ dsink_put dsink_sync (gz_open ZS z0 bufsize) (d0, c0) ops in
+  let r' := gz_close ZS zdef _ dsink_put dsink_sync (fst r) (snd r) in
+  let fin := dev_close (fst (snd r')) (snd (snd r')) in
+  k_err (snd fin) = false ->
+  exists comp, sent (snd fin) = stream (k_fmt c0) (k_trace (snd fin)) /\ tr (snd fin) = comp /\ k_trace (snd fin) <> [] /\
+               inflate comp = Some (concat (map gbytes ops)).
+Proof. exact gzip_stream_lemma. Qed.
+Print Assumptions gzip_committed_stream_exact.
+(* SCGI instance: header block, then a stream that inflates to the body *)
+Theorem gzip_scgi_wire_exact :
+  forall (ZS : Type) (zdef : ZS -> bytes -> N -> ZS * list bytes) (z0 : ZS) (inflate : bytes -> option bytes),
+  (forall calls last, Forall flag_ok calls ->
+     inflate (concat (snd (zrun ZS zdef z0 (calls ++ [(last, Z_FINISH)])))) = Some (concat (map fst calls) ++ last)) ->
+  forall async cap c0 bufsize ops,
+  k_err c0 = false -> k_trace c0 = [] -> sent c0 = [] -> f_proto (k_fmt c0) = Scgi -> f_hdr_done (k_fmt c0) = false ->
+  let d0 := dev_open (new_dev async) cap in
+  let r := grun ZS zdef _ dsink_put dsink_sync (gz_open ZS z0 bufsize) (d0, c0) ops in
+  let r' := gz_close ZS zdef _ dsink_put dsink_sync (fst r) (snd r) in
+  let fin := dev_close (fst (snd r')) (snd (snd r')) in
+  k_err (snd fin) = false ->
+  exists comp, sent (snd fin) = f_hdr (k_fmt c0) ++ comp /\ inflate comp = Some (concat (map gbytes ops)).
+Proof. exact gzip_scgi_lemma. Qed.
+Print Assumptions gzip_scgi_wire_exact.
+
+(* FastCGI instance: the committed stream de-records to header block ++ a stream that inflates to the body *)
+Theorem gzip_fastcgi_wire_exact :
+  forall (ZS : Type) (zdef : ZS -> bytes -> N -> ZS * list bytes) (z0 : ZS) (inflate : bytes -> option bytes),
+  (forall calls last, Forall flag_ok calls ->
+     inflate (concat (snd (zrun ZS zdef z0 (calls ++ [(last, Z_FINISH)])))) = Some (concat (map fst calls) ++ last)) ->
+  forall async cap c0 bufsize ops rest,
+  k_err c0 = false -> k_trace c0 = [] -> sent c0 = [] -> f_proto (k_fmt c0) = Fcgi -> f_hdr_done (k_fmt c0) = false ->
+  let d0 := dev_open (new_dev async) cap in
+  let r := grun ZS zdef _ dsink_put dsink_sync (gz_open ZS z0 bufsize) (d0, c0) ops in
+  let r' := gz_close ZS zdef _ dsink_put dsink_sync (fst r) (snd r) in
+  let fin := dev_close (fst (snd r')) (snd (snd r')) in
+  k_err (snd fin) = false ->
+  exists comp, inflate comp = Some (concat (map gbytes ops)) /\
+    exists fuel0, forall fuel, (fuel0 <= fuel)%nat ->
+      unrecord fuel (f_reqid (k_fmt c0)) (sent (snd fin) ++ rest) = Some (f_hdr (k_fmt c0) ++ comp, rest).
+Proof. exact gzip_fcgi_lemma. Qed.
+Print Assumptions gzip_fastcgi_wire_exact.
+(* HTTP instance (no declared Content-Length): header block, then one of the three sound framings (computed
+   Content-Length / chunked / close-delimited) of a stream that inflates to the body *)
+Theorem gzip_http_wire_exact :
+  forall (ZS : Type) (zdef : ZS -> bytes -> N -> ZS * list bytes) (z0 : ZS) (inflate : bytes -> option bytes),
+  (forall calls last, Forall flag_ok calls ->
+     inflate (concat (snd (zrun ZS zdef z0 (calls ++ [(last, Z_FINISH)])))) = Some (concat (map fst calls) ++ last)) ->
+  forall async cap c0 bufsize ops,
+  k_err c0 = false -> k_trace c0 = [] -> sent c0 = [] ->
+  f_proto (k_fmt c0) = Http -> f_hdr_done (k_fmt c0) = false -> f_ocl (k_fmt c0) = None ->
+  let d0 := dev_open (new_dev async) cap in
+  let r := grun ZS zdef _ dsink_put dsink_sync (gz_open ZS z0 bufsize) (d0, c0) ops in
+  let r' := gz_close ZS zdef _ dsink_put dsink_sync (fst r) (snd r) in
+  let fin := dev_close (fst (snd r')) (snd (snd r')) in
+  k_err (snd fin) = false ->
+  exists comp, inflate comp = Some (concat (map gbytes ops)) /\
+    http_wire (f_hdr (k_fmt c0)) (f_server (k_fmt c0)) comp (sent (snd fin)).
+Proof. exact gzip_http_lemma. Qed.
+Print Assumptions gzip_http_wire_exact.
+
+(* non-vacuity: a toy zlib that satisfies the contract (it copies its input, in two pieces per call); gzip buffer of
+   256 bytes (requested 0), synchronous device with a 4-byte buffer: 300 + 1 + 2 bytes written, with a sync in between *)
+Example gzip_nonvacuous :
+  (forall calls last, Forall flag_ok calls ->
+     Some (concat (snd (zrun unit toy_zdef tt (calls ++ [(last, Z_FINISH)])))) = Some (concat (map fst calls) ++ last)) /\
+  (let c := new_conn Scgi true false 1 [] [] [] [] in
+   let ops := [GWrite (repeat 7 300); GPut 1; GSync; GWrite [2;3]] in
+   let r := grun unit toy_zdef (dev * conn) dsink_put dsink_sync (gz_open unit tt 0) (dev_open (new_dev false) 4, c) ops in
+   let r' := gz_close unit toy_zdef (dev * conn) dsink_put dsink_sync (fst r) (snd r) in
+   let fin := dev_close (fst (snd r')) (snd (snd r')) in
+   eqb_bytes (tr (snd fin)) (repeat 7 300 ++ [1;2;3]) = true /\ g_opened unit (fst r') = false /\
+   (length (k_trace (snd fin)) =? 4)%nat = true).
+Proof. split; [exact toy_contract|]. vm_compute. repeat split. Qed.
+
 (* ------------------------------------------------------------------------------------------------ 6. composition: the whole request
    run_request = response script -> (copy_buf) -> device -> connection -> socket.  For every script (any writes, puts,
-   flushes, setbuf, full_asynchronous_buffering, headers, cookies, copy_to_cache, async_flush_output) that contains no
-   shrinking setbuf on a fully buffered device (script_safe, the refuted case), synchronous or asynchronous, every
+   flushes, setbuf of any size at any point, full_asynchronous_buffering, headers, cookies, copy_to_cache,
+   async_flush_output), synchronous or asynchronous, every
    protocol, EVERY accept schedule (it is a field of c): unless the connection signalled an error,
    the wire is the ideal stream of a trace t ++ [(g, eof)] with all_false t whose data is exactly the script's bytes,
    nothing is left pending, and the page-cache copy (when copy_buf is installed) equals the body. *)
 Theorem response_exact : forall async base defbuf version c ops,
-  fresh c -> script_safe async base defbuf version c ops ->
+  fresh c ->
   let f0 := set_response_headers (k_fmt c) (hdrs_at_out base ops) version in
   let res := run_request async base defbuf version c ops in
   k_err (fst res) = false ->
@@ -219,9 +433,30 @@ Theorem response_exact : forall async base defbuf version c ops,
 Proof. exact response_exact_lemma. Qed.
 Print Assumptions response_exact.
 
+(* the page-cache copy: copy_to_cache() (= a cache().fetch_page miss) before the first output, anything before it that is
+   not output, anything after it: what store_page hands to the cache (copied_data) is exactly the body -- the same
+   bytes the theorems below find on the wire after de-framing *)
+Theorem cache_copy_exact_response : forall async base defbuf version c pre rest,
+  fresh c -> Forall (fun o => is_output o = false) pre ->
+  let ops := pre ++ OCopy :: rest in
+  k_err (fst (run_request async base defbuf version c ops)) = false ->
+  snd (run_request async base defbuf version c ops) = script_body ops.
+Proof. exact cache_copy_is_body. Qed.
+Print Assumptions cache_copy_exact_response.
+
+(* kept-alive connections (HTTP keep-alive, FastCGI keep-conn): a completed response leaves nothing pending, so the
+   connection object reset for the next request (socket state carried over) is fresh again: all per-request theorems
+   apply to every response on the connection *)
+Theorem next_request_starts_fresh : forall async base defbuf version c ops p h11 cka rid srv,
+  fresh c -> k_err (fst (run_request async base defbuf version c ops)) = false ->
+  let cf := fst (run_request async base defbuf version c ops) in
+  fresh (new_conn p h11 cka rid srv (k_pending cf) (k_sched cf) (k_log cf)).
+Proof. exact next_request_fresh. Qed.
+Print Assumptions next_request_starts_fresh.
+
 (* SCGI: the wire is the CGI header block (headers/cookies set before the first output, once) followed by the body *)
 Theorem scgi_response_exact : forall async base defbuf version c ops,
-  fresh c -> f_proto (k_fmt c) = Scgi -> script_safe async base defbuf version c ops ->
+  fresh c -> f_proto (k_fmt c) = Scgi ->
   let cf := fst (run_request async base defbuf version c ops) in
   k_err cf = false ->
   wire_bytes cf = format_cgi_headers (hdrs_at_out base ops) ++ script_body ops.
@@ -230,7 +465,7 @@ Print Assumptions scgi_response_exact.
 
 (* FastCGI: the wire de-records (independent decoder, up to END_REQUEST, nothing consumed beyond) to header block ++ body *)
 Theorem fastcgi_response_exact : forall async base defbuf version c ops rest,
-  fresh c -> f_proto (k_fmt c) = Fcgi -> script_safe async base defbuf version c ops ->
+  fresh c -> f_proto (k_fmt c) = Fcgi ->
   let cf := fst (run_request async base defbuf version c ops) in
   k_err cf = false ->
   exists fuel0, forall fuel, (fuel0 <= fuel)%nat ->
@@ -244,7 +479,6 @@ Print Assumptions fastcgi_response_exact.
    Connection: close and the body verbatim *)
 Theorem http_response_exact : forall async base defbuf version c ops,
   fresh c -> f_proto (k_fmt c) = Http -> hmap_get (h_map (hdrs_at_out base ops)) CONTENT_LENGTH = [] ->
-  script_safe async base defbuf version c ops ->
   let cf := fst (run_request async base defbuf version c ops) in
   k_err cf = false ->
   http_wire (format_http_headers (hdrs_at_out base ops) version) (f_server (k_fmt c)) (script_body ops) (wire_bytes cf).
@@ -269,24 +503,37 @@ Theorem format_error_stops_the_write : forall c g e f1 nd,
   sent (blocking_write c g e) = sent c /\ k_err (blocking_write c g e) = true.
 Proof. exact format_error_sends_nothing. Qed.
 Print Assumptions format_error_stops_the_write.
-(* PARTIAL: a response that writes fewer bytes than it announced is not detected by the code (nor claimed here);
-   blocking-loop liveness: k_err = false is a hypothesis of the blocking and end-to-end theorems (the model raises it
-   only for would-block on a blocking socket or a Content-Length overrun) *)
+(* end to end with a declared Content-Length (sync or async, every schedule, no error signalled): header block (with the
+   declared length among the application headers), Server line, connection line, body verbatim; no chunking *)
+Theorem http_response_exact_declared_length : forall async base defbuf version c ops,
+  fresh c -> f_proto (k_fmt c) = Http -> hmap_get (h_map (hdrs_at_out base ops)) CONTENT_LENGTH <> [] ->
+  let cf := fst (run_request async base defbuf version c ops) in
+  k_err cf = false ->
+  wire_bytes cf = (format_http_headers (hdrs_at_out base ops) version ++ f_server (k_fmt c) ++
+                   (if f_cka (k_fmt c) then CONN_KA else CONN_CLOSE) ++ CRLF) ++ script_body ops.
+Proof. exact http_declared_exact. Qed.
+Print Assumptions http_response_exact_declared_length.
+(* PARTIAL: a response that writes fewer bytes than it announced is not detected by the code (nor claimed here).
+   The hypothesis k_err = false of the theorems above is discharged below for asynchronous responses (every
+   schedule) and for synchronous responses on a socket that never reports would-block -- in both cases with or without a
+   declared Content-Length, as long as the body fits the declared length; it is false (genuine errors) exactly when the
+   script overruns its declared length or a blocking socket reports would-block (which connection::write treats as an
+   error). *)
 
 (* asynchronous responses without an application-declared Content-Length: no hypothesis about errors is needed.
    For EVERY accept schedule (any number of would-blocks and short writes) the response is delivered exactly. *)
 Theorem async_response_never_errs : forall base defbuf version c ops,
-  fresh c -> script_safe true base defbuf version c ops -> no_declared_length c (hdrs_at_out base ops) ->
+  fresh c -> no_declared_length c (hdrs_at_out base ops) ->
   k_err (fst (run_request true base defbuf version c ops)) = false.
 Proof. exact async_noerr. Qed.
 Print Assumptions async_response_never_errs.
 Theorem async_scgi_response_exact_unconditional : forall base defbuf version c ops,
-  fresh c -> f_proto (k_fmt c) = Scgi -> script_safe true base defbuf version c ops ->
+  fresh c -> f_proto (k_fmt c) = Scgi ->
   wire_bytes (fst (run_request true base defbuf version c ops)) = format_cgi_headers (hdrs_at_out base ops) ++ script_body ops.
 Proof. exact async_scgi_unconditional. Qed.
 Print Assumptions async_scgi_response_exact_unconditional.
 Theorem async_fastcgi_response_exact_unconditional : forall base defbuf version c ops rest,
-  fresh c -> f_proto (k_fmt c) = Fcgi -> script_safe true base defbuf version c ops ->
+  fresh c -> f_proto (k_fmt c) = Fcgi ->
   exists fuel0, forall fuel, (fuel0 <= fuel)%nat ->
   unrecord fuel (f_reqid (k_fmt c)) (wire_bytes (fst (run_request true base defbuf version c ops)) ++ rest) =
   Some (format_cgi_headers (hdrs_at_out base ops) ++ script_body ops, rest).
@@ -294,24 +541,127 @@ Proof. exact async_fcgi_unconditional. Qed.
 Print Assumptions async_fastcgi_response_exact_unconditional.
 Theorem async_http_response_exact_unconditional : forall base defbuf version c ops,
   fresh c -> f_proto (k_fmt c) = Http -> hmap_get (h_map (hdrs_at_out base ops)) CONTENT_LENGTH = [] ->
-  script_safe true base defbuf version c ops ->
   http_wire (format_http_headers (hdrs_at_out base ops) version) (f_server (k_fmt c)) (script_body ops)
             (wire_bytes (fst (run_request true base defbuf version c ops))) /\
   k_pending (fst (run_request true base defbuf version c ops)) = [].
 Proof. exact async_http_unconditional. Qed.
 Print Assumptions async_http_response_exact_unconditional.
 
+(* asynchronous responses WITH an application-declared Content-Length: as long as the script writes no more than it
+   announced, the connection never enters the error state (every schedule), and the response is delivered verbatim.
+   Budget argument: output_written_ of the format state equals the data of the ghost trace, which only grows and
+   ends as the script body. *)
+Theorem async_declared_length_never_errs : forall base defbuf version c ops L,
+  fresh c -> f_proto (k_fmt c) = Http ->
+  hmap_get (h_map (hdrs_at_out base ops)) CONTENT_LENGTH <> [] ->
+  parse_dec (hmap_get (h_map (hdrs_at_out base ops)) CONTENT_LENGTH) = L ->
+  lenN (script_body ops) <= L ->
+  k_err (fst (run_request true base defbuf version c ops)) = false.
+Proof. exact async_declared_noerr. Qed.
+Print Assumptions async_declared_length_never_errs.
+Theorem async_http_declared_length_exact_unconditional : forall base defbuf version c ops,
+  fresh c -> f_proto (k_fmt c) = Http ->
+  hmap_get (h_map (hdrs_at_out base ops)) CONTENT_LENGTH <> [] ->
+  lenN (script_body ops) <= parse_dec (hmap_get (h_map (hdrs_at_out base ops)) CONTENT_LENGTH) ->
+  wire_bytes (fst (run_request true base defbuf version c ops)) =
+    (format_http_headers (hdrs_at_out base ops) version ++ f_server (k_fmt c) ++
+     (if f_cka (k_fmt c) then CONN_KA else CONN_CLOSE) ++ CRLF) ++ script_body ops.
+Proof. exact async_declared_unconditional. Qed.
+Print Assumptions async_http_declared_length_exact_unconditional.
+Example async_declared_nonvacuous :
+  let c := new_conn Http true true 1 [83;58;120;13;10] [] [2;0;0;3;0;1] [] in
+  let ops := [OHeader CONTENT_LENGTH [53]; OFull false; OSetbuf false 1; OWrite [1;2]; OPut [3]; OAsyncFlush; OWrite [4;5]] in
+  fresh c /\ parse_dec (hmap_get (h_map (hdrs_at_out (mkHeaders [] []) ops)) CONTENT_LENGTH) = 5 /\ script_body ops = [1;2;3;4;5] /\
+  k_err (fst (run_request true (mkHeaders [] []) 1024 [49;46;49] c ops)) = false /\
+  k_err (fst (run_request true (mkHeaders [] []) 1024 [49;46;49] c (ops ++ [OWrite [6]]))) = true.
+Proof. split; [vm_compute; repeat split|]. vm_compute. repeat split. Qed.
+
+(* synchronous responses: blocking-loop liveness.  If the blocking socket never reports would-block (spos: every entry of
+   the accept schedule is positive, i.e. each write_some on a non-empty buffer accepts at least one byte -- short writes
+   of any size are allowed) and no Content-Length is declared, the connection never enters the error state: gather
+   buffers never contain an empty entry, the write_to_socket loop terminates, format_output does not fail.  Hence the
+   end-to-end statements hold without any hypothesis about errors. *)
+Theorem sync_response_never_errs : forall base defbuf version c ops,
+  fresh c -> spos (k_sched c) -> no_declared_length c (hdrs_at_out base ops) ->
+  k_err (fst (run_request false base defbuf version c ops)) = false.
+Proof. exact sync_noerr. Qed.
+Print Assumptions sync_response_never_errs.
+Theorem sync_scgi_response_exact_live : forall base defbuf version c ops,
+  fresh c -> spos (k_sched c) -> f_proto (k_fmt c) = Scgi ->
+  wire_bytes (fst (run_request false base defbuf version c ops)) = format_cgi_headers (hdrs_at_out base ops) ++ script_body ops.
+Proof. exact sync_scgi_live. Qed.
+Print Assumptions sync_scgi_response_exact_live.
+Theorem sync_fastcgi_response_exact_live : forall base defbuf version c ops rest,
+  fresh c -> spos (k_sched c) -> f_proto (k_fmt c) = Fcgi ->
+  exists fuel0, forall fuel, (fuel0 <= fuel)%nat ->
+  unrecord fuel (f_reqid (k_fmt c)) (wire_bytes (fst (run_request false base defbuf version c ops)) ++ rest) =
+  Some (format_cgi_headers (hdrs_at_out base ops) ++ script_body ops, rest).
+Proof. exact sync_fcgi_live. Qed.
+Print Assumptions sync_fastcgi_response_exact_live.
+Theorem sync_http_response_exact_live : forall base defbuf version c ops,
+  fresh c -> spos (k_sched c) -> f_proto (k_fmt c) = Http -> hmap_get (h_map (hdrs_at_out base ops)) CONTENT_LENGTH = [] ->
+  http_wire (format_http_headers (hdrs_at_out base ops) version) (f_server (k_fmt c)) (script_body ops)
+            (wire_bytes (fst (run_request false base defbuf version c ops))) /\
+  k_pending (fst (run_request false base defbuf version c ops)) = [].
+Proof. exact sync_http_live. Qed.
+Print Assumptions sync_http_response_exact_live.
+
+(* ... and with a declared Content-Length that the script respects (budget argument of the asynchronous case) *)
+Theorem sync_declared_length_never_errs : forall base defbuf version c ops L,
+  fresh c -> spos (k_sched c) -> f_proto (k_fmt c) = Http ->
+  hmap_get (h_map (hdrs_at_out base ops)) CONTENT_LENGTH <> [] ->
+  parse_dec (hmap_get (h_map (hdrs_at_out base ops)) CONTENT_LENGTH) = L ->
+  lenN (script_body ops) <= L ->
+  k_err (fst (run_request false base defbuf version c ops)) = false.
+Proof. exact sync_declared_noerr. Qed.
+Print Assumptions sync_declared_length_never_errs.
+Theorem sync_http_declared_length_exact_live : forall base defbuf version c ops,
+  fresh c -> spos (k_sched c) -> f_proto (k_fmt c) = Http ->
+  hmap_get (h_map (hdrs_at_out base ops)) CONTENT_LENGTH <> [] ->
+  lenN (script_body ops) <= parse_dec (hmap_get (h_map (hdrs_at_out base ops)) CONTENT_LENGTH) ->
+  wire_bytes (fst (run_request false base defbuf version c ops)) =
+    (format_http_headers (hdrs_at_out base ops) version ++ f_server (k_fmt c) ++
+     (if f_cka (k_fmt c) then CONN_KA else CONN_CLOSE) ++ CRLF) ++ script_body ops.
+Proof. exact sync_declared_live. Qed.
+Print Assumptions sync_http_declared_length_exact_live.
+
+(* non-vacuity: a synchronous FastCGI response under the short-write schedule [3;1;7;2;1;5] (all positive): 9 writev calls,
+   no error, the wire de-records to header block ++ body; and a would-block on the blocking socket IS an error (the
+   hypothesis spos cannot be dropped); a declared Content-Length of 3 with 3 bytes written is delivered verbatim *)
+Example sync_nonvacuous :
+  let c := new_conn Fcgi true false 7 [] [] [3;1;7;2;1;5] [] in
+  let ops := [OHeader [88] [49]; OSetbuf false 2; OWrite [1;2;3]; OPut [4]; OFlush; OWrite [5;6]] in
+  fresh c /\ spos (k_sched c) /\
+  (lenN (k_log (fst (run_request false (mkHeaders [] []) 16384 [49;46;49] c ops))) =? 9) = true /\
+  unrecord 9 7 (wire_bytes (fst (run_request false (mkHeaders [] []) 16384 [49;46;49] c ops)) ++ [99]) =
+    Some ([88;58;32;49;13;10;13;10] ++ [1;2;3;4;5;6], [99]) /\
+  k_err (fst (run_request false (mkHeaders [] []) 16384 [49;46;49] (new_conn Fcgi true false 7 [] [] [3;0] []) ops)) = true /\
+  (let ch := new_conn Http true true 1 [83;58;120;13;10] [] [2;9] [] in
+   let opsl := [OHeader CONTENT_LENGTH [51]; OWrite [1;2]; OFlush; OWrite [3]] in
+   k_err (fst (run_request false (mkHeaders [] []) 16384 [49;46;49] ch opsl)) = false /\
+   k_err (fst (run_request false (mkHeaders [] []) 16384 [49;46;49] ch (opsl ++ [OFlush; OWrite [4]]))) = true).
+Proof.
+  split; [vm_compute; repeat split|]. split; [repeat constructor|].
+  split; [vm_compute; reflexivity|]. split; [vm_compute; reflexivity|]. split; [vm_compute; reflexivity|].
+  split; vm_compute; reflexivity.
+Qed.
+
 Example response_nonvacuous :
   let c := new_conn Http true true 1 [83;58;120;13;10] [] [3;0;1;0;7;2] [] in
   let ops := [OHeader [88] [49]; OSetbuf false 2; OFull false; OWrite [1;2;3]; OHeader [89] [50]; OAsyncFlush; OFull true;
-              OPut [4;5]; OSetbuf false 5; OFlush; OWrite [6]] in
-  fresh c /\ script_safe true (mkHeaders [] []) 1024 [49;46;49] c ops /\
+              OPut [4;5]; OSetbuf false 1; OFlush; OWrite [6]] in
+  fresh c /\
   k_err (fst (run_request true (mkHeaders [] []) 1024 [49;46;49] c ops)) = false /\
   script_body ops = [1;2;3;4;5;6] /\
   h_map (hdrs_at_out (mkHeaders [] []) ops) = [([88],[49])] /\
-  (lenN (k_log (fst (run_request true (mkHeaders [] []) 1024 [49;46;49] c ops))) =? 8) = true.
+  (lenN (k_log (fst (run_request true (mkHeaders [] []) 1024 [49;46;49] c ops))) =? 8) = true /\
+  (exists bw, wire_bytes (fst (run_request true (mkHeaders [] []) 1024 [49;46;49] c ops)) =
+              (format_http_headers (mkHeaders [([88],[49])] []) [49;46;49] ++ [83;58;120;13;10] ++ (CONN_KA ++ TE_CHUNKED) ++ CRLF) ++ bw /\
+              unchunk 9 bw = Some ([1;2;3;4;5;6], [])).
 Proof.
-  vm_compute. repeat split; try (intros H; discriminate H); try (intros _ H; discriminate H).
+  split; [vm_compute; repeat split|]. split; [vm_compute; reflexivity|]. split; [vm_compute; reflexivity|].
+  split; [vm_compute; reflexivity|]. split; [vm_compute; reflexivity|].
+  eexists. split; vm_compute; reflexivity.
 Qed.
 
 (* ------------------------------------------------------------------------------------------------ 7. tie
@@ -321,6 +671,7 @@ Proof. exact link_next_size. Qed.
 Print Assumptions tie_next_size.
 Theorem tie_fastcgi_max_record : g_max_packet_len = Z.of_N max_packet_len.
 Proof. exact link_max_packet_len. Qed.
+Print Assumptions tie_fastcgi_max_record.
 Theorem tie_socket_max_iovec : g_max_vec_size = Z.of_nat max_vec.
 Proof. exact link_max_vec_size. Qed.
 Print Assumptions tie_socket_max_iovec.
